@@ -123,7 +123,11 @@ Pop == SubSeq(stack, 1, Len(stack) - 1)
 \*  todoS : single-valued targets not yet fetched ; todoL : slice targets not yet fetched
 \*  open  : a slice property is being fetched ; acc : versions fetched for it so far
 \*  exp   : while waiting for a nested creation: what was asked; later the version to publish
-Frame(n) == [n |-> n, pc |-> "mark", todoS |-> {}, todoL |-> {}, open |-> FALSE, acc |-> <<>>, exp |-> NoV]
+\*  il    : the component's Init has already performed its own lookup (sc.ilook)
+Frame(n) == [n |-> n, pc |-> "mark", todoS |-> {}, todoL |-> {}, open |-> FALSE, acc |-> <<>>, exp |-> NoV, il |-> FALSE]
+\* sc.ilook[n] = t # 0: the component's Init() itself asks the container for component t by name (a service locator call during
+\* initialisation; t may be lazy and may depend back on n, which closes a cycle during INITIALISATION instead of population)
+NoLook == [n \in Node |-> 0]
 
 \* a required point that only the holder itself could satisfy
 SelfOnly(s, h) == s.mode[h] # "shortcut" /\ ((h \in s.single[h] /\ ~s.selfOpt[h]) \/ (s.slice[h] = {h} /\ ~s.sliceOpt[h]))
@@ -158,6 +162,7 @@ Deliver(f, t, v, wasSlice, deps0) ==
 \* Who may ask for target t now, and as what?  "top": refresh driver / user lookup.
 CanAskSingle(t) == stack # <<>> /\ Top.pc = "pop" /\ ~Top.open /\ t \in Top.todoS
 CanAskSlice(t)  == stack # <<>> /\ Top.pc = "pop" /\ t \in Top.todoL
+CanAskInit(t)   == stack # <<>> /\ Top.pc = "init" /\ ~Top.il /\ sc.ilook[Top.n] = t
 CanAskTop(t)    == /\ stack = <<>>
                    /\ \/ (status = "refresh" /\ queue # <<>> /\ Head(queue) = t /\ \A p \in 1..Len(sc.procs) : sc.procs[p] \/ pinit[p] = 1)
                       \/ (status \in {"done", "failed"} /\ lookups < MaxLookups)
@@ -173,7 +178,7 @@ Lookup(t) ==
 
 \* EVENT get(t): doGetComponent(t) -> registry.GetSingleton(t, true)
 Get(t, kind) ==
-  /\ CASE kind = "S" -> CanAskSingle(t) [] kind = "L" -> CanAskSlice(t) [] kind = "top" -> CanAskTop(t)
+  /\ CASE kind = "S" -> CanAskSingle(t) [] kind = "L" -> CanAskSlice(t) [] kind = "top" -> CanAskTop(t) [] kind = "I" -> CanAskInit(t)
   /\ LET r == Lookup(t)
          asSlice == kind = "L"
      IN
@@ -194,13 +199,15 @@ Get(t, kind) ==
           \* a fresh early proxy Meta starts without dependents
           /\ deps' = IF r.ran /\ ~r.err /\ r.v.k = "earlyP" THEN [deps EXCEPT ![t]["earlyP"] = {}] ELSE deps
         ELSE
-          LET f0 == IF asSlice THEN [Top EXCEPT !.todoL = @ \ {t}, !.open = TRUE]
+          LET f0 == IF kind = "I" THEN [Top EXCEPT !.il = TRUE]
+                    ELSE IF asSlice THEN [Top EXCEPT !.todoL = @ \ {t}, !.open = TRUE]
                                ELSE [Top EXCEPT !.todoS = @ \ {t}] IN
           /\ UNCHANGED <<queue, lookups, status>>
           /\ failedEver' = (failedEver \/ r.err)
           /\ IF r.found THEN
                LET d0 == IF r.ran /\ r.v.k = "earlyP" THEN [deps EXCEPT ![t]["earlyP"] = {}] ELSE deps
-                   d == Deliver(f0, t, r.v, asSlice, d0) IN
+                   d == IF kind = "I" THEN [f |-> f0, fS |-> fS, fL |-> fL, deps |-> d0]     \* a lookup: nothing is injected, nobody becomes a dependent
+                        ELSE Deliver(f0, t, r.v, asSlice, d0) IN
                /\ stack' = [stack EXCEPT ![Len(stack)] = d.f]
                /\ fS' = d.fS /\ fL' = d.fL /\ deps' = d.deps
              ELSE IF r.err THEN
@@ -208,7 +215,7 @@ Get(t, kind) ==
                /\ UNCHANGED <<fS, fL, deps>>
              ELSE
                /\ stack' = Append([stack EXCEPT ![Len(stack)] =
-                                     [f0 EXCEPT !.exp = [n |-> t, k |-> IF asSlice THEN "L" ELSE "S", o |-> "wait"]]],
+                                     [f0 EXCEPT !.exp = [n |-> t, k |-> IF kind = "I" THEN "I" ELSE IF asSlice THEN "L" ELSE "S", o |-> "wait"]]],
                                   Frame(t))
                /\ UNCHANGED <<fS, fL, deps>>
   /\ UNCHANGED <<sc, pinit, ran, L1, inCr, phase, cnt>>
@@ -287,7 +294,7 @@ BInit  == \/ (stack # <<>> /\ sc.mode[Top.n] # "beforeNil" /\ Callback("pop", "b
                    ELSE stack' = [stack EXCEPT ![Len(stack)] = [Top EXCEPT !.pc = "check", !.exp = Raw(n)]] /\ phase' = [phase EXCEPT ![n] = "binit"]
              /\ UNCHANGED <<sc, pinit, ran, L1, L2, L3, inCr, fS, fL, deps, earlyRuns, seen, queue, status, lookups, failedEver>>
 APS    == Callback("aps", "aps", "init", "aps")
-InitCb == Callback("init", "init", "ainit", "init")
+InitCb == stack # <<>> /\ (sc.ilook[Top.n] = 0 \/ Top.il) /\ Callback("init", "init", "ainit", "init")
 
 \* EVENT after(n, ok): PostProcessAfterInitialization (may substitute)
 AInit ==
@@ -340,7 +347,10 @@ CreateEnd ==
           LET p == stack[Len(stack) - 1]
               asSlice == p.exp.k = "L" IN
           /\ UNCHANGED status
-          /\ IF ok THEN
+          /\ IF ok /\ p.exp.k = "I" THEN          \* the parent's Init asked: its lookup returns, nothing is injected
+               /\ stack' = [Pop EXCEPT ![Len(stack) - 1] = [p EXCEPT !.exp = NoV]]
+               /\ UNCHANGED <<fS, fL, deps>>
+             ELSE IF ok THEN
                LET d == Deliver([p EXCEPT !.exp = NoV], n, f.exp, asSlice, deps) IN
                /\ stack' = [Pop EXCEPT ![Len(stack) - 1] = d.f]
                /\ fS' = d.fS /\ fL' = d.fL /\ deps' = d.deps
@@ -376,7 +386,7 @@ RefreshDone ==
   /\ status' = "done"
   /\ UNCHANGED <<sc, pinit, ran, L1, L2, L3, inCr, stack, fS, fL, deps, earlyRuns, seen, phase, cnt, queue, lookups, failedEver>>
 
-Next == (\E t \in Node, kind \in {"S", "L", "top"} : Get(t, kind)) \/ CreateBegin \/ AddFactory \/ Resolve
+Next == (\E t \in Node, kind \in {"S", "L", "top", "I"} : Get(t, kind)) \/ CreateBegin \/ AddFactory \/ Resolve
         \/ BInit \/ APS \/ InitCb \/ AInit \/ Check \/ CreateEnd \/ RefreshDone
         \/ \E p \in 1..2 : ProcInit(p)
         \/ Shortcut \/ SAfter \/ (\E n \in Node : RunnerRun(n))
@@ -443,7 +453,8 @@ C05_LazyProcs == \A p \in 1..Len(sc.procs) : (sc.procs[p] => pinit[p] = 0) /\ pi
 C05_ProcsBeforeRefresh == (\E n \in Node : phase[n] # "new") => \A p \in 1..Len(sc.procs) : sc.procs[p] \/ pinit[p] = 1
 
 \* graph helpers (scenario only)
-Edges(s) == {<<h, t>> \in Node \X Node : t # h /\ s.mode[h] # "shortcut" /\ (t \in s.single[h] \/ t \in s.slice[h])}
+Edges(s) == {<<h, t>> \in Node \X Node : t # h /\ ((s.mode[h] # "shortcut" /\ (t \in s.single[h] \/ t \in s.slice[h]))
+                                                   \/ (s.mode[h] = "normal" /\ s.ilook[h] = t))}
 RECURSIVE ReachSet(_, _, _)
 ReachSet(s, frontier, seenSet) ==
   IF frontier = {} THEN seenSet
